@@ -96,7 +96,7 @@ def expr(dim, custom, depth, positive=False):
             "area": ["atom", "len*len", "sum", "pow(len,2)"],
             "time": ["atom", "sum", "len/vel"],
             "vel": ["atom", "len/time"],
-            "none": ["atom", "atom", "sum", "len/len", "none*none", "fn", "fn_angle", "powi", "par", "time/time",
+            "none": ["atom", "atom", "sum", "len/len", "none*none", "fn", "fn_angle", "powi", "pow_nested", "par", "time/time",
                      "freq*time", "time*freq"],
             "freq": ["atom", "atom", "sum", "none/time", "vel/len"],
             "angle": ["atom", "atom", "sum", "angle*none"],
@@ -130,6 +130,12 @@ def expr(dim, custom, depth, positive=False):
             return ["chain", left, [["*", draw(atom("none", custom, True))]]]
         if r == "powi":
             return ["pow", draw(gen(dim="none", depth=depth - 1, positive=True)), draw(st.sampled_from([2, 3]))]
+        if r == "pow_nested":
+            # a two-argument function whose FIRST argument contains calls of a two-argument function
+            inner = lambda: ["pow", draw(atom("none", custom)) if draw(st.booleans()) else ["num", draw(st.sampled_from([2.0, 3.0, 0.5])), None],
+                             draw(st.sampled_from([2, 3]))]
+            first = ["chain", inner(), [["+", inner()]]] if draw(st.booleans()) else inner()
+            return ["pow", first, draw(st.sampled_from([2, 3]))]
         if r == "pow(len,2)":
             return ["pow", sub("len"), 2]
         a, op, b = {"len*none": ("len", "*", "none"), "none*len": ("none", "*", "len"), "area/len": ("area", "/", "len"),
